@@ -134,6 +134,18 @@ func checkCase(c Case) error {
 	if !bytes.Equal(wb.Bytes(), a.BE()) {
 		return fmt.Errorf("WriteGUID(%s) = %x, want %x", a.Text(), wb.Bytes(), a.BE())
 	}
+	// results must stay valid while further conversions are made (no shared buffers behind returned slices)
+	keepBytes, keepText, keepGUID := util.GUIDToBytes(&la), la.Format(), util.BytesToGUID(a.BE())
+	keepWire := (&signature.SignatureData{Owner: la}).Bytes()
+	_ = util.GUIDToBytes(&lb)
+	_ = lb.Format()
+	_ = lb.Bytes()
+	_ = util.BytesToGUID(b.BE())
+	_ = util.StringToGUID(b.Text())
+	_ = (&signature.SignatureData{Owner: lb}).Bytes()
+	if !bytes.Equal(keepBytes, a.BE()) || keepText != a.Text() || keepGUID == nil || !sameLib(*keepGUID, a) || !bytes.Equal(keepWire, a.Wire()) {
+		return fmt.Errorf("results for %s changed after the same conversions were applied to %s: bytes %x text %s wire %x", a.Text(), b.Text(), keepBytes, keepText, keepWire)
+	}
 	// --- equality is field-wise
 	if !util.CmpEFIGUID(la, la) {
 		return fmt.Errorf("CmpEFIGUID(g, g) false for %s", a.Text())
@@ -202,6 +214,10 @@ func checkCase(c Case) error {
 	var es efivar.Efistring
 	if err := es.Unmarshal(bytes.NewBuffer(append([]byte{}, want...))); err != nil || string(es) != c.S {
 		return fmt.Errorf("Efistring.Unmarshal(encode(%q)) = %q, %v", c.S, string(es), err)
+	}
+	enc2 := util.MarshalUtf16Var(c.S + "x")
+	if !bytes.Equal(enc, want) || len(enc2) != len(want)+2 {
+		return fmt.Errorf("MarshalUtf16Var result changed after another call")
 	}
 	// without the terminator (2 bytes cut) decoding must fail
 	unterminated := want[:len(want)-2]
